@@ -68,26 +68,26 @@ type EnvEvent struct {
 
 // Sched is the cooperative scheduler.
 type Sched struct {
-	mu        sync.Mutex
-	threads   []*Thread
-	cur       *Thread
-	Choices   []int // schedule prefix to replay
-	Decisions []Decision
-	closed    map[uintptr]bool
-	notify    []reflect.Value // channels registered by Notify (SIGWINCH)
-	Stdin     []byte
-	StdinEOF  bool
-	Env       []*EnvEvent
-	Deadlock  string
-	aborted   bool
-	Out       func(p []byte) // terminal output sink
-	MaxPoints int
-	Failure   string // harness-level failure (replay divergence...)
-	mainDone  bool
+	mu         sync.Mutex
+	threads    []*Thread
+	cur        *Thread
+	Choices    []int // schedule prefix to replay
+	Decisions  []Decision
+	closed     map[uintptr]bool
+	notify     []reflect.Value // channels registered by Notify (SIGWINCH)
+	Stdin      []byte
+	StdinEOF   bool
+	Env        []*EnvEvent
+	Deadlock   string
+	aborted    bool
+	Out        func(p []byte) // terminal output sink
+	MaxPoints  int
+	Failure    string // harness-level failure (replay divergence...)
+	mainDone   bool
 	OnDecision func() // called at every scheduling point, all threads parked or done
-	OnIdle    func() // called when main is parked in a terminal read and nothing else is enabled (a "wait")
-	nThreads  int    // enabled threads at the decision being taken
-	wg        sync.WaitGroup
+	OnIdle     func() // called when main is parked in a terminal read and nothing else is enabled (a "wait")
+	nThreads   int    // enabled threads at the decision being taken
+	wg         sync.WaitGroup
 }
 
 // Quiescent reports (while a decision is being taken) that no thread is enabled and the
